@@ -457,6 +457,10 @@ def all_cells(tier):
             for b in group:
                 if a != b:
                     cells.append(('prog', 'num pair %s then %s' % (a, b), 'x = [%s, %s, %s]\ny = %s\nz = f"{%s}{%s}"\n' % (a, b, a, b, a, b)))
+    # f-string text that spells an expression followed by `=` and a field with !r: the printer may use the debug form {expr=} only when the
+    # field's expression is that very expression (the text `2.0=` in front of {2!r} is not)
+    for text_, expr in (('2.0', '2'), ('2', '2.0'), ('1', 'True'), ('True', '1'), ('0', '0.0'), ('0j', '0'), ('a', 'a'), ('a', 'b'), ('2', '2'), ('1+1', '2'), ("'s'", "'s'"), ("'s'", "b's'"), ('a.b', 'a.b'), ('a .b', 'a.b')):
+        cells.append(('prog', 'num debug specifier %s= before {%s!r}' % (text_, expr), 'x = f"%s={%s!r}"\ny = f"t {%s!r} %s={%s!r:>4}"\n' % (text_, expr, expr, text_, expr)))
     adj = ADJ if tier == 'thorough' else ADJ_QUICK
     for tpl in ADJ_TEMPLATES:
         two = '{B}' in tpl
